@@ -370,7 +370,14 @@ func (x *Exec) modCells(env *SpecEnv, mts []ModTarget) map[string][]Term {
 			}
 			su, _ := asStruct(pt)
 			idx, _ := findField(su, t.Name)
-			a := x.fieldAddr(base, pt, idx)
+			var a *Addr
+			if idx < 0 {
+				if a = x.ghostFieldAddr(pt, t.Name, base); a == nil {
+					panic(specErr("modifies %s: no such field", mt.Text))
+				}
+			} else {
+				a = x.fieldAddr(base, pt, idx)
+			}
 			hn, _, _ := x.rootHeap(a)
 			ex[hn] = append(ex[hn], a.Ref)
 		case EUnary:
